@@ -35,6 +35,11 @@ def _binary_op(op, lhs, rhs):
     if isinstance(rhs, (int, float, np.ndarray, Quantity)):
         rhs = Array(values=rhs)
     if isinstance(rhs, Array):
+        if op.startswith("__i") and any(
+            np.shares_memory(rhs._array, xyz._array) for xyz in lhs._xyz.values()
+        ):
+            # in-place update by one of the vector's own components: use its old values
+            rhs = rhs.copy()
         rhs = lhs.__class__(**{c: rhs for c in lhs._xyz.keys()})
     if lhs.nvec != rhs.nvec:
         raise ValueError("Operands do not have the same number of components.")
